@@ -418,9 +418,15 @@ fn p07(p: &mut ProbeReport, r: &mut Rng, budget: usize) {
         let code = LANGS[i % LANGS.len()]; i += 1;
         let v = vocab(code);
         let mut scn = rand_scn(&v, r, 8, true, true);
+        // ratings near the top of usize are still pairwise distinct ratings (C07 does not bound them)
+        if i % 5 == 0 {
+            let huge = [usize::MAX, usize::MAX - 1, (isize::MAX as usize) + 1, (isize::MAX as usize) + 2, isize::MAX as usize, usize::MAX - 7];
+            for (k, e) in scn.recs.iter_mut().enumerate() { if k < huge.len() && r.chance(2, 3) { e.2 = huge[k]; } }
+        }
         let t0 = r.pick(&scn.recs).1.clone();
         // make several records relevant to the same query
-        for k in 0..scn.recs.len() { if r.chance(1, 2) { let extra = v.word(r); scn.recs[k].1 = format!("{} {}", t0, extra); } }
+        let same_extra = v.word(r);
+        for k in 0..scn.recs.len() { if r.chance(1, 2) { let extra = if r.chance(1, 3) { same_extra.clone() } else { v.word(r) }; scn.recs[k].1 = format!("{} {}", t0, extra); } }
         let q = if r.chance(1, 8) { String::new() } else { query_for(&v, r, &t0) };
         let hits = search_results(&scn.build(), &q);
         p.eval(&format!("{}|{}|{}", code, scn.recs.len(), q), hits.len() >= 2);
@@ -716,7 +722,9 @@ fn p12(p: &mut ProbeReport, r: &mut Rng, budget: usize) {
         if !distinct { for k in 0..scn.recs.len() { if r.chance(1, 3) { let j = r.below(scn.recs.len()); scn.recs[k].1 = scn.recs[j].1.clone(); } } }
         if scn.recs.iter().any(|e| has_sentinel(&e.1)) { continue; }
         let n = scn.recs.len();
-        let extra = (n + 1, v.title(r), r.below(1 << 20) + (1 << 20));
+        // the record added after an empty-query search: rated above, below, or tied with an existing record
+        let extra_rating = match r.below(4) { 0 => r.below(1 << 20) + (1 << 20), 1 => 0, _ => r.pick(&scn.recs).2 };
+        let extra = (n + 1, if r.chance(1, 2) { format!("a{}", v.word(r)) } else { v.title(r) }, extra_rating);
         for phase in 0..2 {
             if phase == 1 { scn.recs.push(extra.clone()); }
             for limit in 0..=scn.recs.len() + 2 {
